@@ -25,6 +25,12 @@ Theorem C09_accumulator_float : sp_init_dist_float = true /\ set_init_dist_float
 Proof. exact accumulator_float. Qed.
 Print Assumptions C09_accumulator_float.
 
+(* the optional parameters of the three entry points default to weights = "length" and export_path_mesh = False
+   (immutable constants; no other optional parameter; only the mesh-type guards decorate the functions) *)
+Theorem C09_defaults : default_weights_is_length = true /\ default_export_is_false = true /\ defaults_ok = true.
+Proof. exact defaults_hold. Qed.
+Print Assumptions C09_defaults.
+
 (* the relaxation test of both loops is the strict comparison *)
 Theorem C09_relaxation_strict : strict_gt relax_sp /\ strict_gt relax_set.
 Proof. exact relax_strict. Qed.
